@@ -411,6 +411,23 @@ func init() {
 	}
 	externals["time.Since"] = func(fr *frame, a []value) value { return fr.i.x.newSym("time.since", types.Int64) }
 	externals["time.Sleep"] = nop
+	// sort.Slice goes through reflectlite (unsafe): an insertion sort over the interpreter's slice, calling the
+	// target's less function (a symbolic comparison forks like any branch)
+	externals["sort.Slice"] = func(fr *frame, a []value) value {
+		s, ok := a[0].(iface).v.([]value)
+		if !ok {
+			fr.i.x.abort(AbortUnmodelled, "sort.Slice of %T", a[0].(iface).v)
+		}
+		for i := 1; i < len(s); i++ {
+			for j := i; j > 0; j-- {
+				if !fr.i.x.truth(call(fr.i, fr, token.NoPos, a[1], []value{j, j - 1})) {
+					break
+				}
+				s[j], s[j-1] = s[j-1], s[j]
+			}
+		}
+		return nil
+	}
 	// time.After: a timeout that does not elapse within the run (time only advances when the harness fires a timer)
 	externals["time.After"] = func(fr *frame, a []value) value {
 		return &vchan{cap: 1, elem: nil}
